@@ -303,6 +303,7 @@ func (e *Exec) poolHB(obj *Value, put bool) {
 // ---- race monitor ----
 
 func (e *Exec) raceCheck(h *objHist, write bool, what, where string) {
+	e.mon[4]++
 	t := e.ts.cur
 	if w := h.lastWrite; w != nil && w.tid != t.id && w.clk > t.vc[w.tid] {
 		e.event("race", "race", fmt.Sprintf("%s of %s by goroutine %d (in %s) is unordered with a write by goroutine %d", rw(write), what, t.id, where, w.tid))
